@@ -38,6 +38,27 @@ Apply(act, p, c) ==
       [] act = "scale2" -> ScaleScatteredCfg(p, c)
       [] act = "swap"   -> SwapCfg(c)
 
+(* ------------------------------------------------------ layouts (broadcasting) *)
+(* One call receives a BATCH of configurations.  Each of the three positions is either  *)
+(* shared (one 0-d value for all pixels) or given per pixel; a layout names the shared   *)
+(* roles.  Broadcasting must give pixel i the configuration Element(layout, shared, p_i):*)
+(* the result for a pixel does not depend on how its configuration was supplied.         *)
+Layouts == {"pixelwise", "scalar_geometry", "scalar_sample", "pixel_source", "scalars"}
+SharedRoles(layout) ==
+    CASE layout = "pixelwise"       -> {}
+      [] layout = "scalar_geometry" -> {"src", "smp"}    \* the usual instrument: one source, one sample, many pixels
+      [] layout = "scalar_sample"   -> {"smp"}
+      [] layout = "pixel_source"    -> {"smp", "det"}    \* many source positions, one detector
+      [] layout = "scalars"         -> {"src", "smp", "det"}
+Element(layout, shared, pix) ==
+    [src |-> IF "src" \in SharedRoles(layout) THEN shared.src ELSE pix.src,
+     smp |-> IF "smp" \in SharedRoles(layout) THEN shared.smp ELSE pix.smp,
+     det |-> IF "det" \in SharedRoles(layout) THEN shared.det ELSE pix.det]
+(* how the per-pixel operands lie in memory / list their dims: flat 1-d, every other     *)
+(* element of a longer array, a 2-d grid, a 2-d grid whose operands list the two dims in *)
+(* different orders.  None of this changes Element.                                      *)
+Memories == {"flat", "strided", "grid", "grid_mixed_order"}
+
 (* --------------------------------------------- near-degenerate dyadic families *)
 (* b2 = sgn*k*b1 + 2^-e p   (angle ~ 2^-e from 0 or pi) :                               *)
 (*     b1.b2     = sgn*k*|b1|^2 + 2^-e (b1.p)                                           *)
